@@ -17,7 +17,8 @@ from vf.bounded import Tally
 from vf.pyvc import extract
 
 MOD = "debian.copyright"
-LINES = ["", "a", " b", "x y", "..", " .", ". ", "  .", "é ü", "\ttab", "a ", ".", "  ", " "]
+from vf import tricky
+LINES = ["", "a", " b", "x y", "..", " .", ". ", "  .", "é ü", "\ttab", "a ", ".", "  ", " ", "%s", "a;b,c", "-----BEGIN PGP SIGNATURE-----", "#x"]
 PATTERNS = ["*", "src/*", "debian/rules", "a?.c", "doc/日本語.txt", "doc/日本語　ガイド.txt", "x\\*y", "é", "data/a,b.txt", "x,", ","]
 TEXTS = ["line1", "line1\n\n  indented\nlast", "é ü\n\n\nx", "a\n .\nb", "  lead", "t\n. \n  .\nend", "", "ends with blanks  ",
          "l1\nlast line\t ", "a\nb\u3000",
